@@ -28,8 +28,9 @@ class Point:
   """A dict-based object."""
 
   def __init__(self, x, y):
+    self.y = y          # (attributes are deliberately not created in alphabetical order)
     self.x = x
-    self.y = y
+    self.a_late = (x, "late")
 
 
 Point.__module__ = "harness.c09"
